@@ -77,3 +77,27 @@ package writer
 //@   site call writer.AddEntryToInMemBuf #1:
 //@     assert [stored-under-the-resolved-index] arg1 == indexNameConverted && arg3 == docType && samebase(arg8, pleArray) && len(arg8) == len(pleArray)
 //@ end
+
+// C19 (a client-supplied name cannot reach files outside the data directory):
+// the delete path builds  <data>/<host>/final/<name>/  by concatenation
+// (writer.getActiveBaseDirVTable) and hands it to os.RemoveAll, so the ONLY
+// thing that confines the name is that it is a registered index of the
+// requesting organisation (registered names passed the name check at
+// creation).  Every name that reaches the segment/segstore/metadata removal was
+// found present by IsVirtualTablePresent — that very name, in that iteration.
+// (C13: and the in-memory metadata is removed for the requesting organisation.)
+//@ ghostdecl idxPresent int
+//@ func deleteIndex
+//@   props C19 C13
+//@   assumecalleerequires
+//@   ghostinit ghost(0, "idxPresent") == 0
+//@   site callret vtable.IsVirtualTablePresent #1:
+//@     assert [presence-checked-for-the-name-being-deleted] *arg0 == indexName && arg1 == myid
+//@     ghostset ghost(0, "idxPresent") = ite(result, 1, 0)
+//@   site call writer.DeleteSegmentsForIndex #1:
+//@     assert [only-a-registered-index-reaches-the-file-removal] ghost(0, "idxPresent") == 1 && arg0 == indexName
+//@   site call writer.DeleteVirtualTableSegStore #1:
+//@     assert [only-a-registered-index-reaches-the-directory-removal] ghost(0, "idxPresent") == 1 && arg0 == indexName
+//@   site call metadata.DeleteVirtualTable #1:
+//@     assert [metadata-removed-for-the-requesting-organisation] ghost(0, "idxPresent") == 1 && arg0 == indexName && arg1 == myid
+//@ end
